@@ -179,22 +179,48 @@ def rule_b1(repo, col):
     if add is None or con is None:
         raise AnalysisError("BitVector.add/__contains__ missing")
 
-    def split(func):
-        d = {}
-        for st in walk_no_nested(func.node):
-            if isinstance(st, ast.Assign) and len(st.targets) == 1 and isinstance(st.targets[0], ast.Name) and st.targets[0].id in ("mask", "b", "i"):
-                d[st.targets[0].id] = norm(st.value)
-        return d
+    from .. import dtable
 
-    sa_, sc_ = split(add), split(con)
-    col.decide("B1", m, con.node, sa_ == sc_ and set(sa_) == {"mask", "b", "i"}, "add and __contains__ split an index identically",
-               "add computes (block, bit) as %s but __contains__ as %s" % (sa_, sc_), construct="def __contains__: index split", function="BitVector.__contains__")
-    # bit written by add is the bit tested by __contains__
-    w = [norm(st) for st in walk_no_nested(add.node) if isinstance(st, ast.AugAssign)]
-    r = [norm(st.value) for st in walk_no_nested(con.node) if isinstance(st, ast.Return) and st.value is not None and not isinstance(st.value, ast.Constant)]
-    col.decide("B1", m, add.node, w == ["self.blocks[b] |= 1 << i"] and r in (["self.blocks[b] & 1 << i"], ["bool(self.blocks[b] & 1 << i)"]),
-               "add sets bit 1 << i of block b and __contains__ tests it", "add writes %s but __contains__ tests %s" % (w, r),
-               construct="def add: bit write/test pair", function="BitVector.add")
+    def locate(func):
+        """(block expression, bit expression) as functions of the index parameter, after substitution of locals (helpers stay as calls)"""
+        ps = dtable.extract(func.node, opaque_loops=True)
+        out = set()
+        for p_ in ps:
+            out.add((p_.env.get("b"), p_.env.get("i")))
+        return out
+
+    la_, lc_ = locate(add), locate(con)
+    if len(la_) != 1 or len(lc_) != 1 or None in list(la_)[0] or None in list(lc_)[0]:
+        # different local names: compare the write and the test expression directly instead
+        la_, lc_ = {("?", "?")}, {("?", "?")}
+    pa = dtable.extract(add.node, opaque_loops=True)
+    pc = dtable.extract(con.node, opaque_loops=True)
+    writes = set(a[0] + " |= " + a[1] for p_ in pa for fn, a, _ in p_.calls if fn == "<augstore |>")
+    tests = set(p_.value for p_ in pc if p_.end == "return" and p_.value not in ("False", "True", "None"))
+    ix = add.params[1]
+    ixc = con.params[1]
+    canon_w = set(w.replace(ix, "IDX") for w in writes)
+    canon_t = set(t.replace(ixc, "IDX") for t in tests)
+    if len(canon_w) != 1 or len(canon_t) != 1:
+        raise AnalysisError("BitVector.add/__contains__: write/test expressions not understood: %s / %s" % (sorted(canon_w), sorted(canon_t)))
+    w = list(canon_w)[0]
+    t = list(canon_t)[0]
+    from .. import pattern as pat
+    bw = pat.match(pat.parse_stmt("self.blocks[E_blk] |= 1 << E_bit"), pat.parse_stmt(w))
+    bt = pat.match(pat.parse_expr("self.blocks[E_blk] & 1 << E_bit"), pat.parse_expr(t)) or pat.match(pat.parse_expr("bool(self.blocks[E_blk] & 1 << E_bit)"), pat.parse_expr(t))
+    if bw is None or bt is None:
+        raise AnalysisError("BitVector.add/__contains__: write/test shape not understood: %s / %s" % (w, t))
+    col.decide("B1", m, con.node, bw == bt, "add sets and __contains__ tests the same bit of the same block",
+               "add writes bit (%s) of block (%s) but __contains__ tests bit (%s) of block (%s)" % (bw["E_bit"], bw["E_blk"], bt["E_bit"], bt["E_blk"]),
+               construct="def __contains__: index split", function="BitVector.__contains__")
+    blk, bit = bw["E_blk"], bw["E_bit"]
+    direct = ("IDX >> self.binsize_bits", "IDX & (1 << self.binsize_bits) - 1")
+    if "self." in blk and "(" in blk and not blk.startswith("IDX"):
+        col.ok("B1", m, add.node, "block/bit computed by a shared helper (%s)" % blk, construct="def add: bit write/test pair", function="BitVector.add")
+    else:
+        col.decide("B1", m, add.node, (blk, bit) == direct, "block = index >> bits, bit = index & (binsize - 1)",
+                   "the index split must be (index >> binsize_bits, index & ((1 << binsize_bits) - 1)); found (%s, %s)" % (blk, bit),
+                   construct="def add: bit write/test pair", function="BitVector.add")
     init = c.methods.get("__init__")
     vals = {}
     for st in walk_no_nested(init.node):
@@ -214,6 +240,8 @@ def rule_b1(repo, col):
 # ------------------------------------------------------------------ B2
 
 def rule_b2(repo, col):
+    from .. import dtable
+
     c = repo.cls(MOD, "OrderedSet")
     m = c.module
     for name in ("__contains__", "__iter__", "__len__", "add", "discard"):
@@ -225,182 +253,222 @@ def rule_b2(repo, col):
     add = c.methods.get("add")
     if add is not None:
         key = add.params[1]
-        g = cfgmod.build(add.node)
-        facts = cfgmod.available_facts(g)
-        n_w = 0
-        for node in g.stmt_nodes():
-            if node.kind != "stmt" or not isinstance(node.ast, (ast.Assign, ast.AugAssign)):
+        paths = dtable.extract(add.node)
+        n_link = 0
+        for p_ in paths:
+            stores = [a for fn, a, _ in p_.calls if fn == "<store>"]
+            if not stores:
                 continue
-            targets = node.ast.targets if isinstance(node.ast, ast.Assign) else [node.ast.target]
-            writes = [t for t in targets if isinstance(t, ast.Subscript)]
-            if not writes:
-                continue
-            n_w += 1
-            st = facts.get(node.id) or frozenset()
-            guarded = ("%s not in self.map" % key, True) in st or ("%s in self.map" % key, False) in st
-            col.decide("B2", m, node.ast, guarded, "linking happens only for a new key",
-                       "add links a node without the `%s not in self.map` guard: re-adding an element moves/duplicates it and breaks first-insertion order" % key)
-            if isinstance(node.ast, ast.Assign) and len(node.ast.targets) >= 3:
-                tset = sorted(norm(t) for t in node.ast.targets)
-                v = node.ast.value
-                okv = isinstance(v, ast.List) and len(v.elts) == 3 and norm(v.elts[0]) == key
-                # curr = end[1] ; targets curr[2], end[1], self.map[key]; value [key, curr, end]
-                prev, nxt = (norm(v.elts[1]), norm(v.elts[2])) if okv else (None, None)
-                okt = okv and tset == sorted(["%s[2]" % prev, "%s[1]" % nxt, "self.map[%s]" % key])
-                al = {}
-                for s in walk_no_nested(add.node):
-                    if isinstance(s, ast.Assign) and isinstance(s.targets[0], ast.Name):
-                        al[s.targets[0].id] = norm(s.value)
-                okp = okt and al.get(nxt) == "self.end" and al.get(prev) == "%s[1]" % nxt
-                col.decide("B2", m, node.ast, okp, "new node appended before the sentinel (prev = old last, next = sentinel)",
-                           "add must append the new node [key, last, end] at the end of the list and link last.next, end.prev and the map to it")
-        if n_w == 0:
+            n_link += 1
+            cd = dict((s_, t) for s_, t, _ in p_.conds)
+            col.decide("B2", m, add.node, cd.get("%s in self.map" % key) is False, "linking happens only for a new key",
+                       "add links a node on a path where `%s not in self.map` was not established: re-adding an element moves/duplicates it and breaks first-insertion order" % key,
+                       construct="def add: membership guard", function="OrderedSet.add")
+            tg = sorted(a[0] for a in stores)
+            vals = set(a[1] for a in stores)
+            E = "self.end"
+            want_t = sorted(["%s[1][2]" % E, "%s[1]" % E, "self.map[%s]" % key])
+            want_v = {"[%s, %s[1], %s]" % (key, E, E)}
+            if tg == want_t and vals == want_v:
+                col.ok("B2", m, add.node, "new node appended before the sentinel (prev = old last, next = sentinel)", construct="def add: append at the end", function="OrderedSet.add")
+            elif all(t.startswith(E) or t.startswith("self.map[") for t in tg) and len(vals) == 1:
+                col.fail("B2", m, add.node, "add must append the new node [key, last, end] at the END of the list and link last.next, end.prev and the map to it; found stores %s = %s"
+                         % (tg, sorted(vals)), construct="def add: append at the end", function="OrderedSet.add")
+            else:
+                raise AnalysisError("OrderedSet.add: linking stores not understood: %s" % stores)
+        if n_link == 0:
             col.fail("B2", m, add.node, "add performs no linking write", construct="def add: writes", function="OrderedSet.add")
     dis = c.methods.get("discard")
     if dis is not None:
         key = dis.params[1]
-        g = cfgmod.build(dis.node)
-        facts = cfgmod.available_facts(g)
-        srcs = {}
-        for node in g.stmt_nodes():
-            if node.kind == "stmt":
-                srcs[norm(node.ast)] = node
-        pop = [s for s in srcs if ("self.map.pop(%s)" % key) in s or s == "del self.map[%s]" % key]
-        relink = [s for s in srcs if s.endswith("[2] = nxt") or s.endswith("[1] = prv") or ("[2] =" in s or "[1] =" in s)]
-        okd = len(pop) == 1 and len([s for s in srcs if "[2] =" in s]) == 1 and len([s for s in srcs if "[1] =" in s]) == 1
-        col.decide("B2", m, dis.node, okd, "discard removes the map entry and relinks both neighbours",
-                   "discard must remove the map entry and relink prev.next and next.prev together; found map removals %s, link writes %s" % (pop, sorted(relink)),
-                   construct="def discard: pairing", function="OrderedSet.discard")
-        # orientation: key, prv, nxt = pop ; prv[2] = nxt ; nxt[1] = prv
-        unpack = [n for n in walk_no_nested(dis.node) if isinstance(n, ast.Assign) and isinstance(n.targets[0], ast.Tuple) and len(n.targets[0].elts) == 3]
-        if okd and unpack:
-            _, pv, nx = [norm(e) for e in unpack[0].targets[0].elts]
-            oko = ("%s[2] = %s" % (pv, nx)) in srcs and ("%s[1] = %s" % (nx, pv)) in srcs
-            col.decide("B2", m, dis.node, oko, "prev.next = next and next.prev = prev", "discard relinks with the wrong orientation", construct="def discard: orientation", function="OrderedSet.discard")
-        guard_ifs = [s for s in dis.node.body if isinstance(s, ast.If) and norm(s.test) == "%s in self.map" % key]
-        inside = set()
-        for gi in guard_ifs:
-            for b in gi.body:
-                for sub in ast.walk(b):
-                    inside.add(id(sub))
-        for s, node in srcs.items():
-            if "[2] =" in s or "[1] =" in s or "self.map.pop" in s:
-                col.decide("B2", m, node.ast, id(node.ast) in inside,
-                           "guarded by membership", "discard touches the list without the `%s in self.map` guard (KeyError for absent elements)" % key)
+        paths = dtable.extract(dis.node)
+        n_w = 0
+        for p_ in paths:
+            stores = [a for fn, a, _ in p_.calls if fn == "<store>"]
+            pops = [a for fn, a, _ in p_.calls if fn == "self.map.pop"] + [a for fn, a, _ in p_.calls if fn == "<del>" and a[0] == "self.map[%s]" % key]
+            if not stores and not pops:
+                continue
+            n_w += 1
+            cd = dict((s_, t) for s_, t, _ in p_.conds)
+            col.decide("B2", m, dis.node, cd.get("%s in self.map" % key) is True, "guarded by membership",
+                       "discard touches the list on a path where `%s in self.map` was not established (KeyError for absent elements)" % key, construct="def discard: membership guard",
+                       function="OrderedSet.discard")
+            node = "self.map.pop(%s)" % key
+            want = sorted([["%s[1][2]" % node, "%s[2]" % node], ["%s[2][1]" % node, "%s[1]" % node]])
+            got = sorted(stores)
+            if got == want and len(pops) == 1:
+                col.ok("B2", m, dis.node, "discard removes the map entry and relinks prev.next = next, next.prev = prev", construct="def discard: pairing", function="OrderedSet.discard")
+            elif all((".pop(" in a[0] or "self.map[" in a[0]) for a in stores):
+                col.fail("B2", m, dis.node, "discard must remove the map entry and relink BOTH neighbours (prev.next = next and next.prev = prev); found stores %s, map removals %d"
+                         % (got, len(pops)), construct="def discard: pairing", function="OrderedSet.discard")
+            else:
+                raise AnalysisError("OrderedSet.discard: stores not understood: %s" % stores)
+        if n_w == 0:
+            col.fail("B2", m, dis.node, "discard never removes anything", construct="def discard: pairing", function="OrderedSet.discard")
     it = c.methods.get("__iter__")
     if it is not None:
-        srcs = [norm(s) for s in walk_no_nested(it.node)]
-        okf = "curr = end[2]" in srcs and "curr = curr[2]" in srcs and "yield curr[0]" in srcs and any(s.startswith("while curr is not end") for s in srcs)
-        col.decide("B2", m, it.node, okf, "__iter__ walks next-links from the sentinel", "__iter__ must start at end[2] and follow [2] links until the sentinel (first-insertion order)",
+        # start = E[i] with E the sentinel; step: V = V[j]; yield V[0]
+        alias = {"self.end"}
+        for st in walk_no_nested(it.node):
+            if isinstance(st, ast.Assign) and isinstance(st.targets[0], ast.Name) and norm(st.value) == "self.end":
+                alias.add(st.targets[0].id)
+        start = step = None
+        for st in walk_no_nested(it.node):
+            if isinstance(st, ast.Assign) and isinstance(st.targets[0], ast.Name) and isinstance(st.value, ast.Subscript) and isinstance(st.value.slice, ast.Constant):
+                tname, base, idx = st.targets[0].id, norm(st.value.value), st.value.slice.value
+                if base in alias:
+                    start = (tname, idx)
+                elif base == tname:
+                    step = (tname, idx)
+        ys = [n for n in walk_no_nested(it.node) if isinstance(n, ast.Yield) and n.value is not None]
+        if start is None or step is None or start[0] != step[0] or len(ys) != 1 or norm(ys[0].value) != "%s[0]" % start[0]:
+            raise AnalysisError("OrderedSet.__iter__: walk not understood (start %s, step %s)" % (start, step))
+        col.decide("B2", m, it.node, start[1] == 2 and step[1] == 2, "__iter__ walks next-links from the sentinel",
+                   "__iter__ must start at end[2] and follow [2] links (first-insertion order); it starts at end[%s] and follows [%s]" % (start[1], step[1]),
                    construct="def __iter__: walk", function="OrderedSet.__iter__")
     ln = c.methods.get("__len__")
     cn = c.methods.get("__contains__")
     if ln is not None and cn is not None:
         e1, e2 = single_return_expr(ln), single_return_expr(cn)
-        col.decide("B2", m, ln.node, e1 is not None and norm(e1) == "len(self.map)", "__len__ counts the map", "__len__ must be len(self.map)", construct="def __len__", function="OrderedSet.__len__")
-        col.decide("B2", m, cn.node, e2 is not None and norm(e2) == "%s in self.map" % cn.params[1], "__contains__ tests the map", "__contains__ must test membership in self.map",
+        if e1 is None or e2 is None:
+            raise AnalysisError("OrderedSet.__len__/__contains__: single return expected")
+        col.decide("B2", m, ln.node, norm(e1) == "len(self.map)", "__len__ counts the map", "__len__ must be len(self.map)", construct="def __len__", function="OrderedSet.__len__")
+        col.decide("B2", m, cn.node, norm(e2) == "%s in self.map" % cn.params[1], "__contains__ tests the map", "__contains__ must test membership in self.map",
                    construct="def __contains__", function="OrderedSet.__contains__")
 
 
 # ------------------------------------------------------------------ B3
 
 def rule_b3(repo, col):
+    from .. import dtable
+
     c = repo.cls(MOD, "UHeap")
     m = c.module
     sw = c.methods.get("_swap")
     if sw is None:
         raise AnalysisError("UHeap._swap missing")
     i1, i2 = sw.params[1], sw.params[2]
-    reads = {}
-    writes = {}
-    for st in walk_no_nested(sw.node):
-        if isinstance(st, ast.Assign):
-            t = st.targets[0]
-            if isinstance(t, ast.Tuple) and isinstance(st.value, ast.Subscript) and norm(st.value.value) == "self._heap":
-                reads[norm(st.value.slice)] = [norm(e) for e in t.elts]
-            elif isinstance(t, ast.Subscript):
-                writes[norm(t)] = norm(st.value)
-    ok = False
-    if i1 in reads and i2 in reads:
-        k1, it1 = reads[i1]
-        k2, it2 = reads[i2]
-        want = {
-            "self._index[%s]" % it1: i2,
-            "self._index[%s]" % it2: i1,
-            "self._heap[%s]" % i1: "(%s, %s)" % (k2, it2),
-            "self._heap[%s]" % i2: "(%s, %s)" % (k1, it1),
-        }
-        ok = writes == want
-    col.decide("B3", m, sw.node, ok, "_swap exchanges both heap slots and both index entries crosswise",
+    ps = dtable.extract(sw.node)
+    if len(ps) != 1:
+        raise AnalysisError("UHeap._swap: straight-line code expected")
+    writes = dict((a[0], a[1]) for fn, a, _ in ps[0].calls if fn == "<store>")
+    H = "self._heap"
+    want = {
+        "self._index[%s[%s][1]]" % (H, i1): i2,
+        "self._index[%s[%s][1]]" % (H, i2): i1,
+        "%s[%s]" % (H, i1): "(%s[%s][0], %s[%s][1])" % (H, i2, H, i2),
+        "%s[%s]" % (H, i2): "(%s[%s][0], %s[%s][1])" % (H, i1, H, i1),
+    }
+    alt = dict(want)
+    alt["%s[%s]" % (H, i1)] = "%s[%s]" % (H, i2)
+    alt["%s[%s]" % (H, i2)] = "%s[%s]" % (H, i1)
+    if set(writes) - set(want) and not all(k.startswith("self._index[") or k.startswith(H + "[") for k in writes):
+        raise AnalysisError("UHeap._swap: writes not understood: %s" % writes)
+    col.decide("B3", m, sw.node, writes in (want, alt), "_swap exchanges both heap slots and both index entries crosswise",
                "_swap must write both _heap slots and both _index entries crosswise; found writes %s" % writes, construct="def _swap: four writes", function="UHeap._swap")
-    # pop_with_key
+    # pop_with_key: order of effects on the single path with a non-empty rest
     pk = c.methods.get("pop_with_key")
     if pk is None:
         raise AnalysisError("UHeap.pop_with_key missing")
-    seq = [norm(s) for s in pk.node.body if not (isinstance(s, ast.Expr) and isinstance(s.value, ast.Constant))]
-    def idx(pred):
-        for i, s in enumerate(seq):
-            if pred(s):
-                return i
-        return -1
-    i_top = idx(lambda s: s.endswith("= self._heap[0]"))
-    i_swap = idx(lambda s: s.startswith("self._swap(0, len(self._heap) - 1)"))
-    i_del = idx(lambda s: s.startswith("del self._index[") or s.startswith("self._index.pop("))
-    i_pop = idx(lambda s: s.startswith("self._heap.pop(") or s == "del self._heap[-1]")
-    i_sink = idx(lambda s: "self._sink_down(0)" in s)
-    okp = -1 < i_top < i_swap < min(i_del, i_pop) and max(i_del, i_pop) < i_sink and i_del != -1 and i_pop != -1
-    col.decide("B3", m, pk.node, okp, "pop: read top, swap it last, remove it from _index and _heap, sink the new top",
-               "pop_with_key must read the top, swap it with the last slot, remove it from BOTH _index and _heap, then sink the new top; statement order found: %s" % seq,
-               construct="def pop_with_key: sequence", function="UHeap.pop_with_key")
-    if i_top >= 0 and i_del >= 0:
-        top_item = seq[i_top].split("=")[0].strip().split(",")[-1].strip(" ()")
-        col.decide("B3", m, pk.node, ("[%s]" % top_item) in seq[i_del] or ("(%s)" % top_item) in seq[i_del], "the removed index entry is the popped item",
-                   "pop_with_key removes the index entry of %s, not of the popped item %s" % (seq[i_del], top_item), construct="def pop_with_key: index removal", function="UHeap.pop_with_key")
-    sink_guard = [s for s in pk.node.body if isinstance(s, ast.If) and "self._sink_down(0)" in norm(s)]
-    col.decide("B3", m, pk.node, bool(sink_guard), "sink only when non-empty", "sinking must be guarded by a non-empty test (IndexError on the last pop)",
-               construct="def pop_with_key: guard", function="UHeap.pop_with_key")
+    ps = dtable.extract(pk.node)
+    problems = []
+    n_paths = 0
+    for p_ in ps:
+        if p_.end != "return":
+            continue
+        n_paths += 1
+        eff = []
+        for fn, a, _ in p_.calls:
+            if fn == "self._swap":
+                eff.append(("swap", tuple(a)))
+            elif fn == "<del>" and a[0].startswith("self._index["):
+                eff.append(("unindex", a[0]))
+            elif fn == "self._index.pop":
+                eff.append(("unindex", "self._index[%s]" % a[0]))
+            elif fn == "self._heap.pop" or (fn == "<del>" and a[0] == "self._heap[-1]"):
+                eff.append(("unheap", tuple(a)))
+            elif fn == "self._sink_down":
+                eff.append(("sink", tuple(a)))
+        kinds = [k for k, _ in eff]
+        if kinds[:3] != ["swap", "unindex", "unheap"] and kinds[:3] != ["swap", "unheap", "unindex"]:
+            problems.append("effects must be: swap top with last, remove the popped item from _index and from _heap (found %s)" % kinds)
+            continue
+        if eff[0][1] != ("0", "len(self._heap) - 1"):
+            problems.append("the top must be swapped with the last slot (found _swap%s)" % (eff[0][1],))
+        un = [v for k, v in eff if k == "unindex"][0]
+        if un != "self._index[self._heap[0][1]]":
+            problems.append("the index entry removed must be the popped item's (found %s)" % un)
+        nonempty = any(t for s_, t, _ in p_.conds if s_ in ("self", "len(self) > 0", "len(self._heap) > 0", "self._heap"))
+        if ("sink" in kinds) != nonempty:
+            problems.append("the new top must be sunk exactly when the heap is still non-empty")
+        if p_.value != "(self._heap[0][0], self._heap[0][1])":
+            problems.append("must return the (key, item) read from the top before the swap (found %s)" % p_.value)
+    if n_paths < 2:
+        raise AnalysisError("UHeap.pop_with_key: paths not found")
+    col.decide("B3", m, pk.node, not problems, "pop: read top, swap it last, remove it from _index and _heap, sink the new top when non-empty",
+               "pop_with_key: %s" % "; ".join(sorted(set(problems))), construct="def pop_with_key: sequence", function="UHeap.pop_with_key")
     # push
     pu = c.methods.get("push")
     if pu is None:
         raise AnalysisError("UHeap.push missing")
-    g = cfgmod.build(pu.node)
-    facts = cfgmod.available_facts(g)
-    new_path = []
-    upd_path = []
-    branch = [st for st in pu.node.body if isinstance(st, ast.If) and norm(st.test) in ("index is None", "index is not None")]
-    if len(branch) != 1:
-        raise AnalysisError("UHeap.push: `if index is None` branch not found")
-    newb, updb = (branch[0].body, branch[0].orelse) if norm(branch[0].test) == "index is None" else (branch[0].orelse, branch[0].body)
-    for st in newb:
-        new_path.append(norm(st))
-    upd_ids = set()
-    for st in updb:
-        for sub in ast.walk(st):
-            upd_ids.add(id(sub))
-    for node in g.stmt_nodes():
-        if node.kind == "stmt" and id(node.ast) in upd_ids:
-            upd_path.append((norm(node.ast), facts.get(node.id) or frozenset()))
-    def pos(lst, pred):
-        for i, s in enumerate(lst):
-            if pred(s):
-                return i
-        return -1
-    a = pos(new_path, lambda s: s.startswith("self._heap.append("))
-    b = pos(new_path, lambda s: s.startswith("self._index[item] ="))
-    d = pos(new_path, lambda s: s.startswith("self._swim_up("))
-    col.decide("B3", m, pu.node, -1 < a < b < d, "new item: append, record index, then swim up",
-               "push of a new item must append to _heap, record its index in _index and only then _swim_up; order found %s" % new_path,
-               construct="def push: new-item sequence", function="UHeap.push")
-    repl = [s for s, _ in upd_path if s.startswith("self._heap[index] =")]
-    swim = [st for s, st in upd_path if s.startswith("self._swim_up(index)")]
-    sink = [st for s, st in upd_path if s.startswith("self._sink_down(index)")]
-    oku = len(repl) == 1 and len(swim) == 1 and len(sink) == 1
-    col.decide("B3", m, pu.node, oku, "key update: replace the pair, then swim up or sink down",
-               "push of an existing item with a new key must replace the stored pair and then swim up or sink down", construct="def push: update sequence", function="UHeap.push")
-    if oku:
-        lt = [f for f in swim[0] if "key < self._heap[parent][0]" in f[0] or "self._heap[parent][0] > key" in f[0]]
-        col.decide("B3", m, pu.node, bool(lt) and all(t for _, t in lt), "swim up when the new key is smaller than the parent's",
-                   "push must swim up exactly when the new key is smaller than the parent's key (min-heap)", construct="def push: direction", function="UHeap.push")
+    item = pu.params[1]
+    ps = dtable.extract(pu.node)
+    problems = []
+    n_new = n_upd = 0
+    IDX = "self._index.get(%s)" % item
+    KEY = "self._compute_key(%s)" % item
+    for p_ in ps:
+        cd = dict((s_, t) for s_, t, _ in p_.conds)
+        isnew = cd.get("%s is None" % IDX)
+        eff = []
+        for fn, a, _ in p_.calls:
+            if fn == "self._heap.append":
+                eff.append(("append", a[0]))
+            elif fn == "<store>" and a[0].startswith("self._index["):
+                eff.append(("index", tuple(a)))
+            elif fn == "<store>" and a[0].startswith("self._heap["):
+                eff.append(("replace", tuple(a)))
+            elif fn == "self._swim_up":
+                eff.append(("swim", a[0]))
+            elif fn == "self._sink_down":
+                eff.append(("sink", a[0]))
+        kinds = [k for k, _ in eff]
+        if isnew is None:
+            raise AnalysisError("UHeap.push: membership test on self._index.get(item) not found on a path")
+        if isnew:
+            n_new += 1
+            if kinds != ["append", "index", "swim"]:
+                problems.append("a new item must be appended to _heap, recorded in _index and only then swum up (found %s)" % kinds)
+            else:
+                if eff[0][1] != "(%s, %s)" % (KEY, item):
+                    problems.append("the appended pair must be (key, item)")
+                slot = eff[1][1][1]
+                if eff[1][1][0] != "self._index[%s]" % item or slot not in ("len(self._heap) - 1", "len(self._heap)"):
+                    problems.append("the recorded index must be the slot of the appended pair")
+                # len(self._heap) is the slot only when read BEFORE the append
+                if p_.value not in ("True",):
+                    problems.append("push of a new item must return True")
+        else:
+            same = [t for s_, t in cd.items() if s_.endswith("== %s" % KEY) or s_.startswith("%s ==" % KEY)]
+            if same and same[0]:
+                if kinds:
+                    problems.append("an unchanged key must leave the heap untouched")
+            elif same:
+                n_upd += 1
+                if kinds[:1] != ["replace"] or len(kinds) != 2 or kinds[1] not in ("swim", "sink"):
+                    problems.append("a changed key must replace the stored pair and then swim up or sink down (found %s)" % kinds)
+                else:
+                    lt = [t for s_, t in cd.items() if s_.startswith("%s < self._heap[self._parent(" % KEY)]
+                    has_parent = [t for s_, t in cd.items() if s_.startswith("self._parent(") and s_.endswith("is None")]
+                    up = bool(lt and lt[0]) and bool(has_parent and not has_parent[0])
+                    if (kinds[1] == "swim") != up:
+                        problems.append("after a key change the item must swim up exactly when it has a parent with a larger key, and sink down otherwise")
+            if p_.value not in ("False",):
+                problems.append("push of an existing item must return False")
+    if n_new < 1 or n_upd < 2:
+        raise AnalysisError("UHeap.push decision table incomplete (new=%d, update=%d)" % (n_new, n_upd))
+    col.decide("B3", m, pu.node, not problems, "push: new item appended/indexed/swum up; key update replaced then moved in the right direction",
+               "push: %s" % "; ".join(sorted(set(problems))), construct="def push: decision table", function="UHeap.push")
     # parent / children arithmetic
     pa, ch = c.methods.get("_parent"), c.methods.get("_children")
     if pa is None or ch is None:
